@@ -389,18 +389,6 @@ func checkLoaderShape(rep *core.Report, r4 *core.RuleRun) {
 	pObj := objOf(info, ranges[1].Value)
 	innerOverOuterVal := objOf(info, ranges[1].X) != nil && objOf(info, ranges[1].X) == objOf(info, ranges[0].Value)
 	r4.Check(innerOverOuterVal, name+":nest", ranges[1].Pos(), "inner range iterates the outer range's value", "inner range does not iterate the outer entry's element map")
-	ix := storeStmt.Lhs[0].(*ast.IndexExpr)
-	klit, _ := ix.Index.(*ast.CompositeLit)
-	vlit, _ := storeStmt.Rhs[0].(*ast.CompositeLit)
-	if klit == nil || vlit == nil {
-		r4.Undecided(name+":store", storeStmt.Pos(), "key or value is not a struct literal")
-		return
-	}
-	kf, vf := structLitFields(info, klit), structLitFields(info, vlit)
-	is := func(e ast.Expr, o types.Object) bool { return e != nil && o != nil && objOf(info, e) == o }
-	r4.Check(is(kf["EnterpriseNo"], penObj) && is(kf["ElementID"], idObj), name+":key", klit.Pos(),
-		"key = {outer key, inner key}", "store key is not {enterprise number, element id} of the current entry")
-	r4.Check(is(vf["FieldID"], idObj), name+":FieldID", vlit.Pos(), "FieldID = inner key", "FieldID is not the element id the entry is keyed by")
 	// a local that is defined once (`name, typ := p[0], p[1]`) and never assigned again stands for its definition
 	var defOf func(e ast.Expr, depth int) ast.Expr
 	defOf = func(e ast.Expr, depth int) ast.Expr {
@@ -466,6 +454,18 @@ func checkLoaderShape(rep *core.Report, r4 *core.RuleRun) {
 		}
 		return e
 	}
+	ix := storeStmt.Lhs[0].(*ast.IndexExpr)
+	klit, _ := ast.Unparen(defOf(ix.Index, 0)).(*ast.CompositeLit)
+	vlit, _ := ast.Unparen(defOf(storeStmt.Rhs[0], 0)).(*ast.CompositeLit)
+	if klit == nil || vlit == nil {
+		r4.Undecided(name+":store", storeStmt.Pos(), "key or value is not a struct literal")
+		return
+	}
+	kf, vf := structLitFields(info, klit), structLitFields(info, vlit)
+	is := func(e ast.Expr, o types.Object) bool { return e != nil && o != nil && objOf(info, e) == o }
+	r4.Check(is(kf["EnterpriseNo"], penObj) && is(kf["ElementID"], idObj), name+":key", klit.Pos(),
+		"key = {outer key, inner key}", "store key is not {enterprise number, element id} of the current entry")
+	r4.Check(is(vf["FieldID"], idObj), name+":FieldID", vlit.Pos(), "FieldID = inner key", "FieldID is not the element id the entry is keyed by")
 	idxOf := func(e ast.Expr) (types.Object, int64, bool) {
 		x, ok := ast.Unparen(defOf(e, 0)).(*ast.IndexExpr)
 		if !ok {
